@@ -254,6 +254,11 @@ class AstToODataVisitor(visitor.NodeVisitor):
             # named like an operator would be read as that operator.
             return f"({res})"
 
+        if isinstance(node, ast.Attribute) and node.attr.lower() == "not":
+            # `(a/not) eq x`: a path that ends in `not` and is followed by whitespace
+            # would be read as the path `a/` and the `not` operator.
+            return f"({res})"
+
         if hasattr(node, "op"):
             node_op = type(node.op)  # type: ignore
         elif hasattr(node, "comparator"):
